@@ -49,6 +49,9 @@ func (items OrderSchemaItems) Less(i, j int) (ret bool) {
 	ij, okj := items[j].Extensions.GetInt("x-order")
 	if oki {
 		if okj {
+			if ii == ij {
+				return items[i].Name < items[j].Name
+			}
 			defer func() {
 				if err := recover(); err != nil {
 					defer func() {
